@@ -789,7 +789,7 @@ def run(chk):
                       "real isSanitizer(problem %s, %s in %s) = %s, the problem's sanitizer specs say %s"
                       % (fn["id"].split(".")[0], site, fn["name"], real, own), dd)
 
-    if tie_broken and not found_concrete:
+    if tie_broken and not (found_concrete and chk.has_new_concrete()):
         fn, k, v, mv = tie_broken[0]
         dd = chk.replay_dir("tie")
         write_replay(dd, fn, k, v, "T-dump tie broken: extracted model Model/Cond.v answers '%s', the implementation '%s' (%d answers differ); "
